@@ -5,6 +5,7 @@ import (
 	"encoding/binary"
 	"fmt"
 	"github.com/RoaringBitmap/roaring/roaring64"
+	"github.com/semafind/semadb/shard/index/inverted"
 	"github.com/vmihailenco/msgpack/v5"
 	"io"
 	"math"
@@ -632,5 +633,76 @@ func (r *Runner) TextIxProj() {
 		sort.Slice(docs, func(a, b int) bool { return docs[a]["n"].(int) < docs[b]["n"].(int) })
 		sort.Slice(sets, func(a, b int) bool { return sets[a]["t"].(string) < sets[b]["t"].(string) })
 		r.TW.Emit("TextIx", M{"p": p.Name, "n": n, "docs": docs, "sets": sets})
+	}
+}
+
+// InvIxProj logs the persisted state of every inverted index (read through
+// hook H1): one entry per stored key with the value's rank in the ladder / pool
+// (-1: a key that is no value of the universe) and the node ids of its set.
+func (r *Runner) InvIxProj() {
+	for _, p := range r.Cfg.Props {
+		switch p.Type {
+		case models.IndexTypeInteger, models.IndexTypeFloat, models.IndexTypeString, models.IndexTypeStringArray:
+		default:
+			continue
+		}
+		ents := []M{}
+		var perr error
+		err := r.Shard.VerifDB().Read(func(bm diskstore.BucketManager) error {
+			b, err := bm.Get(fmt.Sprintf("index/%s/%s", p.Type, p.Name))
+			if err != nil {
+				return err
+			}
+			return b.ForEach(func(k, v []byte) error {
+				rank := -1
+				switch p.Type {
+				case models.IndexTypeInteger:
+					var x int64
+					if inverted.VerifFromByteSortable(k, &x) == nil {
+						for _, l := range IntLadder {
+							if l.V == x {
+								rank = l.Rank
+							}
+						}
+					}
+				case models.IndexTypeFloat:
+					var x float64
+					if inverted.VerifFromByteSortable(k, &x) == nil {
+						for _, l := range FloatLadder {
+							if l.V == x {
+								rank = l.Rank
+							}
+						}
+					}
+				default:
+					for i, s := range StrPool {
+						if s == string(k) {
+							rank = i + 1
+						}
+					}
+				}
+				set := roaring64.New()
+				if _, e := set.ReadFrom(bytes.NewReader(v)); e != nil {
+					perr = e
+					return nil
+				}
+				ids := []int{}
+				it := set.Iterator()
+				for it.HasNext() {
+					ids = append(ids, int(it.Next()))
+				}
+				ents = append(ents, M{"r": rank, "ids": ids})
+				return nil
+			})
+		})
+		if err != nil {
+			ents = []M{} // (an index that was never written has no bucket yet)
+		}
+		if perr != nil {
+			r.obsErr("InvIx", perr)
+			continue
+		}
+		sort.Slice(ents, func(a, b int) bool { return ents[a]["r"].(int) < ents[b]["r"].(int) })
+		r.TW.Emit("InvIx", M{"p": p.Name, "ents": ents})
 	}
 }
